@@ -197,6 +197,10 @@ class Violation(Exception):
     pass
 
 
+class _StopShrink(BaseException):
+    """raised inside a test function to end Hypothesis' shrinking once the budget is used up"""
+
+
 def _vclass(bucket):
     c = _VCLS.get(bucket)
     if c is None:
@@ -225,7 +229,7 @@ def hyp_search(ctx, kind, strategy, check_case, max_examples, seed_salt=0, max_r
 
     def wrapped(case):
         if state["t_fail"] is not None and time.monotonic() - state["t_fail"] > shrink_budget_s:
-            return  # shrink budget used up: let Hypothesis finish with what it has
+            raise _StopShrink()  # shrink budget used up: keep the smallest failing case seen so far
         discs, nontrivial, classes = check_case(case)
         ctx.case(_canon(case), nontrivial, classes,
                  sample=(sample_of(case) if sample_of else case) if len(ctx.samples) < 4 else None)
@@ -257,7 +261,7 @@ def hyp_search(ctx, kind, strategy, check_case, max_examples, seed_salt=0, max_r
         )(test)
         try:
             test()
-        except Violation:
+        except (Violation, _StopShrink):
             pass
         except hypothesis.errors.HypothesisException as e:
             if state["best"] is None:
